@@ -129,11 +129,47 @@ func (t *FnTrans) instr(b *ssa.BasicBlock, idx int, in ssa.Instruction, st *Heap
 				continue
 			}
 			t.note("deferred call with possible effects: heap havocked at function exit")
-			t.replaceState(st, t.havocAll(st))
+			// (ghost instrumentation changes only where a contract sets it)
+			ns := t.havocAllKeepGhost(st)
+			dfn := callee
+			if mc, ok := d.Common().Value.(*ssa.MakeClosure); ok {
+				if f, ok := mc.Fn.(*ssa.Function); ok {
+					dfn = f
+				}
+			}
+			if dfn != nil {
+				for _, gn := range t.W.ghostWrites(dfn, map[*ssa.Function]bool{}) {
+					for _, comp := range []string{"G." + gn, "GA." + gn} {
+						if srt, ok := t.compSorts[comp]; ok {
+							ns.cur[comp] = t.declare(t.fresh("H."+comp+"!defer"), srt)
+						}
+					}
+				}
+			} else {
+				ns = t.havocAll(st)
+			}
+			t.replaceState(st, ns)
 		}
 	case *ssa.Go, *ssa.Send, *ssa.Select:
 		t.note("concurrency instruction %T: heap havocked", in)
-		t.replaceState(st, t.havocAll(st))
+		// ghost instrumentation is changed only where a contract sets it: the
+		// ghosts of the function started by a go statement (transitively) are
+		// havocked, all others survive
+		ns := t.havocAllKeepGhost(st)
+		if g, ok := in.(*ssa.Go); ok {
+			if callee := g.Common().StaticCallee(); callee != nil {
+				for _, gn := range t.W.ghostWrites(callee, map[*ssa.Function]bool{}) {
+					for _, comp := range []string{"G." + gn, "GA." + gn} {
+						if srt, ok := t.compSorts[comp]; ok {
+							ns.cur[comp] = t.declare(t.fresh("H."+comp+"!go"), srt)
+						}
+					}
+				}
+			} else {
+				ns = t.havocAll(st)
+			}
+		}
+		t.replaceState(st, ns)
 		if v, ok := in.(ssa.Value); ok {
 			t.setVal(v, t.havocVal(v.Type(), "conc"))
 		}
